@@ -22,6 +22,7 @@ for f in sorted(glob.glob(os.path.join(d, 'try_C??_C*.out'))):
     rc = 1 if v else (3 if i else 0)
     sig = next((t[2:92] for t in txt if re.match(r'^  [a-zA-Z]', t)), '')
     wall = next((re.search(r'wall=([\d.]+)s', t).group(1) for t in txt if t.startswith('OK') and 'wall=' in t), '?')
+    wall = str(int(float(wall))) if wall != '?' else '0'
     lines[(mut, chk)] = '%s %s violations=%d inconclusive=%d exit=%d wall=%ss | %s' % (mut, chk, v, i, rc, wall, sig)
 with open(path, 'w') as f:
     for k in sorted(lines):
